@@ -841,11 +841,11 @@ fn routing_family(mut chk: Check) -> ! {
     chk.ev.rule = "route tables generated from a segment grammar (static a/b/c, {param}, u_{param}, {*catch_all}, trailing slashes, `/`), 9 method sets (single, several, custom methods FOO/BAR, any-method), nested blueprints with static/parametric prefixes up to depth 3, fallbacks at any level, optionally domain guards (static, {sub}, {*any}, {t}-suffix, trailing dot) - conflict-free by construction; x probes per table: every route's witness path, near misses (extra/missing segment, trailing slash, static/param siblings), every nesting prefix (exact, +x, +/, +/zz/zz), 8 methods, Host in {witness, +'.', +'..', :port, extra label, upper case, one label fewer, foreign, absent}. Oracle: an independent reference router (handler identity, or fallback identity + the AllowedMethods it observed / 404 / 405+Allow). non-trivial = a request that matches a path but not a method, or reaches a nested fallback, or uses a parameter/catch-all, or a custom method; distinct = distinct (table, probe)".into();
     chk.ev.assume("static-over-parameter priority is matchit's rule, not Pavex's own text: probes decided only by it are labelled; host case is not documented: hosts differing only in case are classified");
     let (n_rounds, k_per_round, n_lanes) = match (tier, with_domains) {
-        (Tier::Quick, false) => (6usize, 6usize, 3usize),
+        (Tier::Quick, false) => (9usize, 6usize, 3usize),
         (Tier::Thorough, false) => (60, 8, 6),
         // domain-guarded applications are compiled one by one (guards are all-or-nothing per application)
-        (Tier::Quick, true) => (6, 1, 3),
-        (Tier::Thorough, true) => (120, 1, 6),
+        (Tier::Quick, true) => (18, 1, 3),
+        (Tier::Thorough, true) => (180, 1, 6),
     };
     let solo = with_domains;
     if let Some(p) = chk.settings.replay.clone() {
@@ -859,10 +859,10 @@ fn routing_family(mut chk: Check) -> ! {
     let campaigns: Vec<bool> = if chk.settings.extra.contains_key("domains") { vec![true] } else if chk.settings.extra.contains_key("no-domains") { vec![false] } else { vec![false, true] };
     for with_domains in campaigns {
     let (n_rounds, k_per_round, n_lanes) = match (tier, with_domains) {
-        (Tier::Quick, false) => (6usize, 6usize, 3usize),
+        (Tier::Quick, false) => (9usize, 6usize, 3usize),
         (Tier::Thorough, false) => (60, 8, 6),
-        (Tier::Quick, true) => (6, 1, 3),
-        (Tier::Thorough, true) => (120, 1, 6),
+        (Tier::Quick, true) => (18, 1, 3),
+        (Tier::Thorough, true) => (180, 1, 6),
     };
     let solo = with_domains;
     let sub = if with_domains { "routing-domains" } else { "routing" };
